@@ -15,6 +15,7 @@ The divergence `D` is an input (abstract matrix); nothing here knows about grids
 Core Lean only.
 -/
 import DarsiaModel.Basic
+import DarsiaModel.Grid
 namespace Darsia.Saddle
 open Darsia
 
@@ -23,66 +24,77 @@ abbrev Mat := Array (Array Rat)
 
 def Mat.get (a : Mat) (i j : Nat) : Rat := (a.getD i #[]).getD j 0
 
+/-- tabulate a matrix / a vector from its entry function (the only way matrices are built below, so that every
+operator is specified by an entry formula) -/
+def tab (n m : Nat) (f : Nat → Nat → Rat) : Mat :=
+  Array.ofFn (n := n) fun i : Fin n => Array.ofFn (n := m) fun j : Fin m => f i.val j.val
+def tabV (n : Nat) (f : Nat → Rat) : Vec := Array.ofFn (n := n) fun i : Fin n => f i.val
+
 def zeros (n m : Nat) : Mat := Array.replicate n (Array.replicate m 0)
 
+/-- `a @ x` (`sumTo n f = Σ_{j<n} f j`) -/
 def mulVec (a : Mat) (x : Vec) : Vec :=
-  a.map fun row => (row.zipWith (· * ·) x).foldl (· + ·) 0
+  tabV a.size fun i => sumTo x.size fun j => a.get i j * x.getD j 0
 
 /-- sparse triplets `(row, col, value)` → dense `nc × nf` -/
 def ofTriplets (nc nf : Nat) (ts : List (Nat × Nat × Rat)) : Mat :=
   ts.foldl (fun a (c, e, v) => a.modify c fun row => row.modify e (· + v)) (zeros nc nf)
 
-/-- full block system; dof order `[flux | pressure | multiplier]` -/
-def assembleFull (w : Vec) (D : Mat) (k : Nat) : Mat :=
+/-- entry `(i, j)` of the full block system `[[W, −Dᵀ, 0],[D, 0, −cᵀ],[0, c, 0]]`; dof order
+`[flux | pressure | multiplier]` -/
+def fullEntry (w : Vec) (D : Mat) (k : Nat) (i j : Nat) : Rat :=
   let nf := w.size
   let nc := D.size
-  let n := nf + nc + 1
-  Array.ofFn (n := n) fun i : Fin n =>
-    Array.ofFn (n := n) fun j : Fin n =>
-      let i := i.val; let j := j.val
-      if i < nf then
-        if j < nf then (if i = j then w.getD i 0 else 0)
-        else if j < nf + nc then - D.get (j - nf) i
-        else 0
-      else if i < nf + nc then
-        if j < nf then D.get (i - nf) j
-        else if j < nf + nc then 0
-        else (if i - nf = k then -1 else 0)
-      else
-        if nf ≤ j ∧ j < nf + nc ∧ j - nf = k then 1 else 0
+  if i < nf then
+    if j < nf then (if i = j then w.getD i 0 else 0)
+    else if j < nf + nc then - D.get (j - nf) i
+    else 0
+  else if i < nf + nc then
+    if j < nf then D.get (i - nf) j
+    else if j < nf + nc then 0
+    else (if i - nf = k then -1 else 0)
+  else
+    if nf ≤ j ∧ j < nf + nc ∧ j - nf = k then 1 else 0
 
-/-- `eliminate_flux`: `(reduced matrix, reduced rhs, W⁻¹)`; the flux block is read off the diagonal
-of the given matrix exactly as the code does (`jacobian.diagonal()[flux_slice]`). -/
+def assembleFull (w : Vec) (D : Mat) (k : Nat) : Mat :=
+  tab (w.size + D.size + 1) (w.size + D.size + 1) (fullEntry w D k)
+
+/-- entries of `eliminate_flux`: Schur complement on the diagonal flux block, read off the given matrix exactly
+as the code does (`jacobian.diagonal()[flux_slice]`, `D = jacobian[reduced, flux]`) -/
+def redEntry (full : Mat) (nf : Nat) (i j : Nat) : Rat :=
+  full.get (nf + i) (nf + j) +
+    sumTo nf fun e => full.get (nf + i) e * (1 / full.get e e) * full.get (nf + j) e
+def redRhsEntry (full : Mat) (rhs : Vec) (nf : Nat) (i : Nat) : Rat :=
+  rhs.getD (nf + i) 0 - sumTo nf fun e => full.get (nf + i) e * (1 / full.get e e) * rhs.getD e 0
+
+/-- `eliminate_flux`: `(reduced matrix, reduced rhs, W⁻¹)` -/
 def eliminateFlux (full : Mat) (rhs : Vec) (nf : Nat) : Mat × Vec × Vec :=
-  let n := full.size
-  let jinv : Vec := Array.ofFn (n := nf) fun e => 1 / full.get e.val e.val
-  let m := n - nf
-  let red : Mat := Array.ofFn (n := m) fun i : Fin m => Array.ofFn (n := m) fun j : Fin m =>
-    full.get (nf + i.val) (nf + j.val) +
-      (List.range nf).foldl (fun s e => s + full.get (nf + i.val) e * jinv.getD e 0 * full.get (nf + j.val) e) 0
-  let rr : Vec := Array.ofFn (n := m) fun i : Fin m =>
-    rhs.getD (nf + i.val) 0 -
-      (List.range nf).foldl (fun s e => s + full.get (nf + i.val) e * jinv.getD e 0 * rhs.getD e 0) 0
-  (red, rr, jinv)
+  let m := full.size - nf
+  (tab m m (redEntry full nf), tabV m (redRhsEntry full rhs nf), tabV nf fun e => 1 / full.get e e)
 
-def dropAt {α} (xs : Array α) (rm : List Nat) : Array α :=
-  ((List.range xs.size).zip xs.toList).filterMap (fun (p, x) => if rm.contains p then none else some x) |>.toArray
+/-- index of the reduced system → index of the unreduced one (skips `k`) -/
+def up (k i : Nat) : Nat := if i < k then i else i + 1
 
-/-- dense reference of the CSC surgery -/
-def dropRowCol (a : Mat) (k last : Nat) : Mat := (dropAt a [k, last]).map fun row => dropAt row [k, last]
+/-- dense reference of the CSC surgery: rows and columns `k` and `last = size - 1` dropped (entry `(i, j)` of the
+result is entry `(up k i, up k j)`; `DarsiaProps.C08.csc_surgery_dense` proves the array surgery does exactly this) -/
+def dropRowCol (a : Mat) (k : Nat) : Mat := tab (a.size - 2) (a.size - 2) fun i j => a.get (up k i) (up k j)
+def dropVec (x : Vec) (k : Nat) : Vec := tabV (x.size - 2) fun i => x.getD (up k i) 0
 
 /-- `eliminate_lagrange_multiplier`; raises when the last reduced rhs entry is not (almost) zero -/
 def eliminateMultiplier (red : Mat) (rr : Vec) (k : Nat) : Except Err (Mat × Vec) :=
   let last := red.size - 1
   let r := rr.getD last 0
   if r > 1 / 1000000 ∨ r < - (1 / 1000000) then .error .notImpl
-  else .ok (dropRowCol red k last, dropAt rr [k, last])
+  else .ok (dropRowCol red k, dropVec rr k)
 
-/-- `compute_flux_update`: `W⁻¹ (g + Dᵀ-part · (p, lam))`, `DT = full[nf:, :nf]ᵀ` -/
-def fluxUpdate (full : Mat) (jinv : Vec) (rhs : Vec) (sol : Vec) (nf : Nat) : Vec :=
-  Array.ofFn (n := nf) fun e : Fin nf =>
-    jinv.getD e.val 0 * (rhs.getD e.val 0 +
-      (List.range (full.size - nf)).foldl (fun s i => s + full.get (nf + i) e.val * sol.getD (nf + i) 0) 0)
+/-- `compute_flux_update`: `W⁻¹ (g + Dᵀ-part · (p, lam))`, `DT = full[nf:, :nf]ᵀ`; `y` is the reduced solution -/
+def fluxEntry (full : Mat) (rhs : Vec) (y : Vec) (nf : Nat) (e : Nat) : Rat :=
+  (1 / full.get e e) * (rhs.getD e 0 + sumTo (full.size - nf) fun i => full.get (nf + i) e * y.getD i 0)
+def fluxUpdateV (full : Mat) (rhs : Vec) (y : Vec) (nf : Nat) : Vec := tabV nf (fluxEntry full rhs y nf)
+
+/-- scatter the pure-pressure solution into `(p, lam)`: `p_k = 0`, `lam = 0` -/
+def scatter (y : Vec) (k nc : Nat) : Vec :=
+  tabV (nc + 1) fun c => if c < k then y.getD c 0 else if c = k then 0 else if c < nc then y.getD (c - 1) 0 else 0
 
 /-- exact Gauss–Jordan elimination; `none` when singular -/
 def solveLin (a : Mat) (b : Vec) : Option Vec := Id.run do
@@ -118,17 +130,15 @@ def linearSolve (form : Form) (full : Mat) (rhs : Vec) (nf k : Nat) (prevPk : Op
     | some x => .ok x
     | none => .error .other
   | .fluxReduced =>
-    let (red, rr, jinv) := eliminateFlux full rhs nf
+    let (red, rr, _) := eliminateFlux full rhs nf
     match solveLin red rr with
     | none => .error .other
-    | some y =>
-      let sol : Vec := Array.replicate nf 0 ++ y
-      .ok (fluxUpdate full jinv rhs sol nf ++ y)
+    | some y => .ok (fluxUpdateV full rhs y nf ++ y)
   | .pressure =>
     if (match prevPk with | some v => decide (v > 1 / 1000000 ∨ v < -(1 / 1000000)) | none => false) then
       .error .notImpl
     else
-    let (red, rr, jinv) := eliminateFlux full rhs nf
+    let (red, rr, _) := eliminateFlux full rhs nf
     match eliminateMultiplier red rr k with
     | .error e => .error e
     | .ok (fr, frr) =>
@@ -136,10 +146,7 @@ def linearSolve (form : Form) (full : Mat) (rhs : Vec) (nf k : Nat) (prevPk : Op
       | none => .error .other
       | some y =>
         -- scatter into the pressure dofs ≠ k; p_k and the multiplier stay zero
-        let nc := red.size - 1
-        let p : Vec := Array.ofFn (n := nc) fun c : Fin nc =>
-          if c.val < k then y.getD c.val 0 else if c.val = k then 0 else y.getD (c.val - 1) 0
-        let sol : Vec := Array.replicate nf 0 ++ p ++ #[0]
-        .ok (fluxUpdate full jinv rhs sol nf ++ p ++ #[0])
+        let pl := scatter y k (red.size - 1)
+        .ok (fluxUpdateV full rhs pl nf ++ pl)
 
 end Darsia.Saddle
